@@ -7,7 +7,8 @@ usage: selftest.py [--prop Cxx] [--tests] [name ...]
   --tests  also run the repository's test suite on the patched copy (it must still pass)
 """
 import json, os, subprocess, sys, tempfile, shutil, glob, re
-V = "/verif"
+V = os.environ.get("VERIF_DIR", "/verif")
+REPO = os.environ.get("VERIF_REPO", "/repo")
 env = dict(os.environ, GOFLAGS="-mod=mod", GOPROXY="off", GOSUMDB="off", GOTOOLCHAIN="local")
 args = sys.argv[1:]
 prop = None
@@ -35,7 +36,7 @@ def one(meta_path):
         tmp = tempfile.mkdtemp(prefix="selftest-")
         try:
             repo = os.path.join(tmp, "repo")
-            subprocess.run(["rsync", "-a", "--exclude", ".git", "/repo/", repo], check=True)
+            subprocess.run(["rsync", "-a", "--exclude", ".git", REPO + "/", repo], check=True)
             r = subprocess.run(["patch", "-p1", "-s", "-d", repo, "-i", f"{V}/selftest/{name}.patch"], capture_output=True, text=True)
             if r.returncode != 0:
                 print(f"SELFTEST {name}: patch does not apply: {r.stdout}{r.stderr}"); ok = False; continue
@@ -47,7 +48,7 @@ def one(meta_path):
                 r = subprocess.run(["go", "test", "-vet=off", "-count=1", "./..."], cwd=repo, env=e2, capture_output=True, text=True)
                 fails = [l for l in r.stdout.splitlines() if l.startswith("--- FAIL")]
                 print(f"  {name}: test suite on patched copy: {len(fails)} failing top-level tests")
-            r = subprocess.run([f"{V}/bin/goverif", "check", "--prop", meta["property"], "--repo", repo, "--out", tmp], capture_output=True, text=True, env=dict(os.environ))
+            r = subprocess.run([f"{V}/bin/goverif", "check", "--verif", V, "--prop", meta["property"], "--repo", repo, "--out", tmp], capture_output=True, text=True, env=dict(os.environ))
             failed = set(re.findall(r"failed obligation: (\S+)", r.stdout))
             want = set(meta.get("must_fail", []))
             if record and not want and failed and meta.get("kind", "must-fail") == "must-fail":
@@ -68,7 +69,7 @@ def one(meta_path):
             shutil.rmtree(tmp, ignore_errors=True)
     return ok, out.getvalue()
 
-res = ThreadPool(6).map(one, sorted(glob.glob(f"{V}/selftest/*.json")))
+res = ThreadPool(int(os.environ.get("SELFTEST_JOBS", "6"))).map(one, sorted(glob.glob(f"{V}/selftest/*.json")))
 for okk, txt in res:
     sys.stdout.write(txt)
 sys.exit(0 if all(r[0] for r in res) else 1)
